@@ -25,7 +25,7 @@ PROPS = {
         "explanation": "Decides the happens-before chain of C03 as it is visible in the code's shape: handler only on the Ok edge of the draining function; draining function returns Ok only after recv succeeded on every receiver; hashes are announced only after the handler returned Ok and are taken from its result by the sub-index stored with the sender. Not decided: correctness of the announced content, acyclicity of the runtime plan.",
     },
     "C04": {
-        "rules": ["C04.R1", "C04.R2", "C04.R3", "C04.R4", "C04.R5", "C04.R6", "C08.R4", "C04.R7"],
+        "rules": ["C04.R1", "C04.R2", "C04.R3", "C04.R4", "C04.R5", "C04.R6", "C08.R4", "C04.R7", "C18.R4"],
         "explanation": "Decides: exit status is tested (code == Some(0)) before an output is accepted; nothing is recorded for a failed execution (history written only under Ok(Ok(_)) of join, error types carry no history); cancel is forwarded on every failing path; a Cancel packet stops the dependent; one error per failed thread, none for cancelled ones; errors carry the failing path; CommandLineOutput.code / success are the process's own exit status, unaltered. Not decided: content correctness of independent rules (C01).",
     },
     "C05": {
@@ -81,7 +81,7 @@ PROPS = {
         "explanation": "Decides: insert never overwrites (only on the miss edge of the same key) and maps Contradiction to Err; every successful re-execution passes through insert; exactly the indices whose tickets differ are reported and mapped to paths[i] of the refreshed blob; the earlier record cannot leave through an error; the hashes compared after a re-execution are those of the files just written (the refresh reuses a remembered hash only under exact mtime equality); the history is not rooted in the cache directory. Not decided: whether a given history forces re-execution.",
     },
     "C18": {
-        "rules": ["C18.R1", "C18.R2", "C18.R3", "C01.R6", "C01.R9", "C01.R10", "C11.R2"],
+        "rules": ["C18.R1", "C18.R2", "C18.R3", "C01.R6", "C01.R9", "C01.R10", "C11.R2", "C18.R4"],
         "explanation": "Decides: the shortcut is taken only under exact equality of the file's own mtime with the remembered one; the table is refreshed whenever a command ran; a restored file is never hashed through the shortcut with the state of the file it replaced, and always gets a fresh stored state (unconditionally, not only when the mtimes differ). Not decided: equality of paired runs over all histories.",
     },
     "C19": {
